@@ -790,7 +790,35 @@ def ult(a, b):
         return TRUE
     if ra[0] >= rb[1]:
         return FALSE
+    # both sides are affine in one and the same 1-bit atom (e.g. a bound `if c {2} else {1}`): decide by its two values
+    p = _one_bit_atom(a, b)
+    if p is not None:
+        r = []
+        for v in (0, 1):
+            m = {p: const(v, 1)}
+            x, y = subst(a, m), subst(b, m)
+            if x.op != "const" or y.op != "const":
+                r = None
+                break
+            r.append(x.aux < y.aux)
+        if r is not None:
+            if r[0] == r[1]:
+                return TRUE if r[0] else FALSE
+            return p if r[1] else bnot(p)
     return _mk("ult", 1, (a, b))
+
+
+def _one_bit_atom(a, b):
+    found = None
+    for t in (a, b):
+        if t.op == "const":
+            continue
+        if t.op != "aff" or len(t.args) != 1 or t.args[0].w != 1:
+            return None
+        if found is not None and t.args[0] is not found:
+            return None
+        found = t.args[0]
+    return found
 
 
 def ule(a, b):
